@@ -666,6 +666,14 @@ func (e *Exec) intrinsic(fn *ssa.Function, args []Value) (Value, bool) {
 			dst.arr.elems[dst.off+i].v = vals[i]
 		}
 		return b.ConstU(64, uint64(n)), true
+	case "bytes.IndexByte":
+		x := args[0].(*SliceV)
+		c := e.termOf(args[1])
+		r := b.Const(64, big.NewInt(-1))
+		for i := x.len - 1; i >= 0; i-- {
+			r = b.Ite(b.Eq(e.termOf(x.arr.elems[x.off+i].v), c), b.ConstU(64, uint64(i)), r)
+		}
+		return r, true
 	case "bytes.Equal":
 		x, y := args[0].(*SliceV), args[1].(*SliceV)
 		if x.len != y.len {
